@@ -27,7 +27,7 @@ RULE = ('per run: system class in {Kronecker of SPD factors, sum of 1-4 such ter
         '||E||_F=0.3}; order 2..5; mode sizes 2..12 with at most 2500 unknowns (dense oracle); rhs rank 1..4; eps=10^-k, k in 3..10; '
         'configuration = preconditioner {None,c,r} x max_full {0,500} x local_solver {GMRES,BiCGSTAB} x x0 {None, random rank 1, '
         'random rank 3} (+ band_diagonal {-1,1} for the Laplacian class); global torch PRNG seeded per run; primary SVD failures on '
-        '25%% of runs; distinct by (class, order, eps decade, preconditioner, max_full, local solver, x0 kind, band, fault kind)')
+        '25% of runs; distinct by (class, order, eps decade, preconditioner, max_full, local solver, x0 kind, band, fault kind)')
 ASSUMPTIONS = ['single-threaded BLAS', 'oracle constant C=10 on the dense residual; generated systems have condition number <= ~500',
                'A, x, b densified by the checker\'s own contraction']
 REAL = ['torchtt.solvers.amen_solve (_amen_solve_python, _LinearOp), _iterative_solvers (GMRES, BiCGSTAB) from the working tree', 'torch']
